@@ -23,8 +23,9 @@ type Machine struct {
 	// Where describes the current instruction; set by the front end, only called on findings.
 	Where func() string
 
-	Steps     int64 // instructions executed (transitions)
-	StepLimit int64
+	Steps                 int64 // instructions executed (transitions)
+	LoadCount, StoreCount int64 // accepted buffer accesses
+	StepLimit             int64
 
 	// per-round access counters (symbolic mode)
 	loads   [NumBufs][N]uint32
@@ -207,6 +208,7 @@ func (m *Machine) Load(p Word) Word {
 		return Word{}
 	}
 	m.touched = true
+	m.LoadCount++
 	if m.Symbolic {
 		m.loads[b][i]++
 	}
@@ -220,6 +222,7 @@ func (m *Machine) Store(p Word, v Word) {
 		return
 	}
 	m.touched = true
+	m.StoreCount++
 	if m.Symbolic {
 		m.stores[b][i]++
 	}
